@@ -36,11 +36,65 @@ def policy_sites(f, fx):
     return out
 
 
+def rule_key_tag_identity(ctx, fx, config):
+    """IDENTITY:custom-tag-is-the-raw-tag — two keys are the same key when text *and tag* agree; for an application tag the
+    fingerprint carries the tag's own text.  The `custom_tag` of a scalar key's fingerprint is the event's `raw_tag` passed
+    through Option / string plumbing only (as_ref, map, clone, to_string …, closures that do nothing else) — never through
+    a function that *interprets* the tag (strips a prefix, rejects some spellings): such a function maps distinct tags to one
+    value, and keys that differ only in those tags collide."""
+    PLUMB = ("map", "as_ref", "as_deref", "cloned", "clone", "to_string", "to_owned", "into_owned", "into", "from", "deref", "as_str", "borrow")
+    f = fx.fn("de::KeyNode::fingerprint")
+    ctx.saw(f)
+    n = 0
+    for g in [f] + fx.closures_of(f):
+        for b, i, adt, var, fl, ops, s_ in aggregates(g):
+            if "custom_tag" not in fl:
+                continue
+            n += 1
+            with g.deep():
+                sym = g.sym_operand(s_["rv"]["ops"][fl.index("custom_tag")])
+            bad = []
+
+            def closure_ok(path):
+                k = fx.fn_opt(norm(path))
+                if k is None:
+                    return False
+                return all(last_seg(fx.callee_decl(t)) in PLUMB for kb, t in k.calls())
+
+            def walk(x):
+                if not isinstance(x, tuple) or not x:
+                    return
+                if x[0] == "field" and x[2] == "raw_tag":
+                    return  # how the event itself is reached is not the tag's business
+                if x[0] == "call":
+                    if last_seg(x[1]) not in PLUMB:
+                        bad.append(x[1])
+                    for a in x[2]:
+                        walk(a)
+                    return
+                if x[0] == "mkclosure":
+                    if not closure_ok(x[1]):
+                        bad.append("closure " + x[1].rsplit("::", 1)[-1])
+                    return
+                for a in x[1:]:
+                    if isinstance(a, tuple):
+                        walk(a)
+                    elif isinstance(a, (list,)):
+                        for y in a:
+                            walk(y)
+            walk(sym)
+            r = render(sym)
+            ctx.check(not bad and "raw_tag" in r, "IDENTITY", "C04:IDENTITY:custom-tag-is-the-raw-tag", "the key's application tag enters the fingerprint as its own text (%s)" % r[:70],
+                      "the fingerprint's `custom_tag` is computed by %s, not copied from the event's raw tag: distinct application tags can map to the same value, and keys that differ only in their tag are taken for a repetition" % (sorted(set(bad)) or r[:60]), config, ctx.where(g, b))
+    ctx.floor("IDENTITY.custom-tag-sites", n, 1, config)
+
+
 def run(ctx):
     for config in ctx.configs:
         fx = ctx.facts(config)
         from .C16 import rule_locate_once
         rule_locate_once(ctx, fx, config, prop="C04")
+        rule_key_tag_identity(ctx, fx, config)
         f = fx.fn(NKS)
         ctx.saw(f)
         sites = policy_sites(f, fx)
